@@ -420,6 +420,10 @@ func engineC16(c *vctx) error {
 				workers = 2
 			}
 		}
+		if bigEvery == 0 && i%5 == 4 {
+			// stampede: many savers released at once on one or two new blobs
+			workers, npool, ncalls = 32, 1+g.intn(2), 3
+		}
 		if err := c16ApiCase(c, fmt.Sprintf("api%d", i), g, npool, bigEvery, workers, ncalls, dupPct, i%2 == 1); err != nil {
 			return err
 		}
